@@ -322,3 +322,48 @@ def bounded(fn, st):
                 'extra_conds': [c2 for c2 in conjuncts(cond) if c2 is not cj], 'problems': problems,
             }
     return None
+
+
+def events_per_iteration(st, is_event):
+    """{number of expressions satisfying is_event evaluated on a path through one iteration that iterates again} over all such
+    paths of loop statement `st` (for: the increment expression counts; `continue` still runs it)"""
+    def count(e):
+        return sum(1 for x in ir.walk(e) if is_event(x)) if ir.is_expr(e) else 0
+
+    def paths(s):
+        if s is None:
+            return [(0, 'fall')]
+        k = s.get('s')
+        if k == 'block':
+            ps = [(0, 'fall')]
+            for c in s['b']:
+                nxt = []
+                sub = paths(c)
+                for n, o in ps:
+                    if o != 'fall':
+                        nxt.append((n, o))
+                    else:
+                        nxt += [(n + n2, o2) for n2, o2 in sub]
+                ps = nxt
+                if len(ps) > 2048:
+                    raise AnalysisBroken('too many paths through a loop body')
+            return ps
+        if k == 'if':
+            cn = count(s.get('c'))
+            if isinstance(s.get('cv'), dict):
+                cn += count(s['cv'].get('init'))
+            return [(cn + n, o) for br in (s.get('t'), s.get('e')) for n, o in paths(br)]
+        if k == 'break':
+            return [(0, 'break')]
+        if k == 'cont':
+            return [(0, 'cont')]
+        if k == 'ret':
+            return [(count(s.get('e')), 'ret')]
+        n = 0
+        for t in ir.walk_stmts(s):
+            for e in ir.stmt_exprs(t):
+                n += count(e)
+        return [(n, 'fall')]
+    inc = count(st.get('inc')) if st.get('s') == 'for' else 0
+    cond = count(st.get('c'))
+    return set(n + inc + cond for n, o in paths(st.get('body')) if o in ('fall', 'cont'))
